@@ -72,6 +72,16 @@ def main(tier: str) -> int:
         if not np.array_equal(X, X0):
             chk.fail("a benchmark problem modified its argument", d, {"problem": pid, "clause": "inputs"})
             X = X0.copy()
+        # the values depend on x and D only - not on the memory layout of the array that holds x (Fortran order: the transpose of a
+        # (D, n) array, a frame's columns)
+        if len(X) >= 2 and len(y) == len(X):
+            Xf = np.asfortranarray(X.copy())
+            yf = W.evaluate(pid, Xf, 1234 + variant, instance=inst)
+            chk.count("fortran_ordered_batch")
+            if len(yf) != len(y) or not all(C.close(float(a), float(b), 1e-9, 1e-9) for a, b in zip(y, yf)) or not np.array_equal(Xf, X):
+                chk.fail("a benchmark value depends on something other than x and D", {**d, "scenario": "the same batch held in Fortran (column-major) order",
+                                                                                     "c_ordered": [float(v) for v in y[:3]], "fortran_ordered": [float(v) for v in yf[:3]]},
+                         {"problem": pid, "clause": "layout"})
         if t not in fresh:
             continue
         chk.case((pid, D, variant), sample={**d, "values": [float(v) for v in y[:2]]} if len(chk.samples) < 4 else None)
